@@ -71,7 +71,8 @@ def ops_menu(nt):
             for key in ('upper', 'lower'):
                 for n in (1, 2):
                     ops.append(['append_rows', t, form, key, n])
-        ops.append(['append_rows_pairs', t])
+        for key in ('upper', 'lower'):
+            ops.append(['append_rows_pairs', t, key])
         ops.append(['append_zero', t])
     return ops
 
@@ -196,7 +197,7 @@ class World:
         if kind in ('append_rows', 'append_rows_pairs', 'append_zero'):
             t = op[1]
             s = m.structs[t]
-            form, key, n = (op[2], op[3], op[4]) if kind == 'append_rows' else ('lists', 'upper', 1)
+            form, key, n = (op[2], op[3], op[4]) if kind == 'append_rows' else ('lists', op[2] if kind == 'append_rows_pairs' else 'upper', 1)
             rows = m.next_rows(t, n) if kind != 'append_zero' else []
             name = s['name'].upper() if key == 'upper' else s['name'].lower()
             if form == 'lists':
